@@ -220,6 +220,24 @@ def run(prog, chk):
             chk.ok("C11.c", f, "%s: wait in loop, success only after a flag test%s" % (name, ", flag consumed" if name.startswith("Monitor") else ""), where, "dominating atoms + path search", evals=3)
         else:
             chk.bad("C11.c", f, "wait-recheck", where, msg or "wait loop shape broken")
+    # ---- C11.i: the flag is consumed, never discarded
+    chk.rule("C11.i", "DOM: inside the wait functions `signaled = false` is stored only on the true edge of a test of `signaled` (the waiter "
+                      "consumes a set() it has seen); nothing else in a wait may clear the flag", floor=2)
+    for name, npar in (("Signal::wait", 0), ("Signal::wait", 1), ("Monitor::wait", 0), ("Monitor::wait", 1)):
+        f = fn(prog, name, npar)
+        where = "%s:%s" % (f.file, f.line)
+        clears = [s_ for s_ in q.stores(f) if q.no_casts(f.r(s_.lhs)) == "this->signaled" and (s_.rhs is None or fin.eval_expr(f, s_.rhs, {}) != 1)]
+        if not clears:
+            chk.ok("C11.i", f, "%s(%s) never clears the flag" % (name, "timeout" if npar else ""), where, "no store to signaled", nontrivial=False)
+        for s_ in clears:
+            atoms = fin.dominating_atoms(f, f.node_pos(s_.node))
+            seen_set = any(a[0] != "case" and a[1] and fin.key(f, a[0]) == "this->signaled" for a in atoms)
+            if seen_set:
+                chk.ok("C11.i", f, "flag cleared after it was seen set", f.where(s_.node), "true edge of the flag test dominates the store", evals=len(atoms) or 1)
+            else:
+                chk.bad("C11.i", f, "flag-discarded-unseen", f.where(s_.node),
+                        "`%s` clears the flag without having seen it set: a set() that another waiter was just woken for (it has not "
+                        "re-taken the mutex yet) is erased - that waiter finds the flag clear and sleeps again, the set() released nobody" % f.r(s_.node), evals=len(atoms) or 1)
     # ---- C11.d
     for name, notify in (("Signal::set", "pthread_cond_broadcast"), ("Monitor::set", "pthread_cond_signal")):
         f = fn(prog, name, 0)
